@@ -2,6 +2,7 @@ import BddVerif.Props.C10
 import BddVerif.Lemmas.AlgoEqIterDriver
 import BddVerif.Lemmas.AlgoEq2NFOptThm
 import BddVerif.Lemmas.AlgoEq2NFPanic
+import BddVerif.Lemmas.AlgoEq2VarSetDriver
 #print axioms B.Props.C10.conjFn_iff
 #print axioms B.Props.C10.disjFn_iff
 #print axioms B.Props.C10.dnfFn_iff
@@ -35,3 +36,5 @@ import BddVerif.Lemmas.AlgoEq2NFPanic
 #print axioms B.AlgoEq2NF.Bdd_to_optimized_dnf_eq_model
 #print axioms B.AlgoEq2NF.Bdd_to_optimized_dnf_spec
 #print axioms B.AlgoEq2NF.opt_dnf_roundtrip_translated
+#print axioms B.AlgoEq2VS.mk_conjunctive_clause_rel
+#print axioms B.AlgoEq2VS.mk_disjunctive_clause_rel
